@@ -60,6 +60,8 @@ def run_job(job, tier, seed, outdir):
         cmd += ["--seed", str(seed)]
     if job.get("xproc"):
         cmd += ["--witnesses", str(job["xproc"])]
+    if job.get("closure", True):
+        cmd += ["--closure"]
     t0 = time.time()
     try:
         r = subprocess.run(cmd, cwd=ROOT, env=env(), capture_output=True, text=True, timeout=job.get("secs", 60) * 2 + 120)
@@ -196,6 +198,7 @@ def main():
                div0_paths=0, sqrt_neg_paths=0, unsupported_paths=0, assume_rejected_runs=0, diverged_runs=0, runs=0, pending_work=0, unrealised_flips=0)
     per_h, functions, locations, samples, assumptions = [], set(), set(), [], set()
     agg_x = dict(witnesses=0, processes=0)
+    closure = dict(proved=0, failed=0, unknown=0, skipped=0)
     all_exh = True
     for r in results:
         job = r["job"]
@@ -216,9 +219,14 @@ def main():
         per_h.append(dict(harness=job["h"], params=job.get("p", {}), exhaustive=rep["exhaustive"], paths=rep["paths"], queries=rep["queries"],
                           solver_time_s=round(rep["solver_time_s"], 2), wall_s=round(rep["wall_s"], 2), pending_work=rep["pending_work"],
                           obligations=rep["obligations_checked"], unknown=rep["unknown"], var_domains=rep.get("var_domains", []), max_trace_len=rep["max_trace_len"],
-                          rounded_terms=rep["rounded_terms"], uf_terms=rep["uf_terms"], shards=rep.get("shards", 1)))
+                          rounded_terms=rep["rounded_terms"], uf_terms=rep["uf_terms"], shards=rep.get("shards", 1), closure=rep.get("closure", "")))
         for s in rep.get("samples", [])[:1]:
             samples.append(dict(harness=job["h"], params=job.get("p", {}), inputs=dict(zip([d.split(" in ")[0] for d in rep.get("var_domains", [])], s["inputs"])), branch_decisions=s["trace_len"], obligations=sorted(set(s["obligations"]))[:6]))
+        cl = rep.get("closure", "")
+        ckey = "proved" if cl == "proved" else ("failed" if cl.startswith("failed") else ("unknown" if cl.startswith("unknown") else "skipped"))
+        closure[ckey] += 1
+        if ckey == "failed":
+            inconclusive.append("%s: closure check failed - the explorer missed a path: %s" % (label, cl))
         if rep["witness_mismatch"]:
             inconclusive.append("%s: symbolic shadow and native execution disagree on %d path witnesses: %s" % (label, rep["witness_mismatch"], rep["notes"][:1]))
         if rep["inexact"] and "inexact" not in allow:
@@ -315,6 +323,7 @@ def main():
             excluded_paths=dict(assume_rejected_runs=agg["assume_rejected_runs"], div_by_zero=agg["div0_paths"], sqrt_negative=agg["sqrt_neg_paths"]),
             pending_work_items=agg["pending_work"], diverged_runs=agg["diverged_runs"],
             harnesses=per_h, known_findings_seen=sorted(seen_known), inconclusive=inconclusive[:10],
+            closure_check=dict(closure, note="per harness run that closed: fresh solver proves domain /\\ not(pc_1 \\/ ... \\/ pc_n) unsat, i.e. every input of the domain follows an explored path; skipped for runs that did not close, whose path conditions mention sqrt / uninterpreted terms, or whose input variables differ between paths"),
             cross_process_replays=dict(path_witnesses=agg_x["witnesses"], fresh_processes=agg_x["processes"], note="native f64 re-execution of path witnesses in fresh processes (new SipHash keys) under rayon pools of 1, 8 and 3 threads; outputs compared bit for bit with the exploration's"),
         ),
         assumptions=sorted(assumptions) + ["bounded: shapes, input grid and budgets as listed per harness; outside them nothing is claimed",
